@@ -802,6 +802,78 @@ static void parse_info_request(int argc, char *argv[])
         log_message(iauth_log, LOG_WARNING, "Unrecognized info request: %s", argv[1]);
 }
 
+#if defined(IAUTHD_C_VERIF)
+/* Verification hooks (off unless built with -DIAUTHD_C_VERIF).
+ *
+ * "-1 # sync <token>" echoes a marker, "-1 # audit" checks the request
+ * table's structure, and "<id> # timeout" runs a live request's timeout
+ * handler exactly as its one-shot timer would.
+ */
+static void iauth_verif_audit(void)
+{
+    struct set_node *node, *prev = NULL;
+    struct iauth_request *req, *preq;
+    unsigned int count = 0;
+    const char *bad = NULL;
+
+    for (node = set_first(iauth_reqs); node; prev = node, node = set_next(node)) {
+        req = set_node_data(node);
+        if (set_prev(node) != prev)
+            bad = "prev link";
+        if (prev) {
+            preq = set_node_data(prev);
+            if (!(preq->client < req->client))
+                bad = "order";
+        }
+        if (++count > set_size(iauth_reqs) + 1) {
+            bad = "list longer than count";
+            break;
+        }
+    }
+    if (!bad && count != set_size(iauth_reqs))
+        bad = "count";
+    if (bad)
+        printf("#verif audit BAD %s n=%u\n", bad, count);
+    else
+        printf("#verif audit ok n=%u\n", count);
+    fflush(stdout);
+}
+
+static void iauth_verif_command(struct iauth_request *req, int argc, char *argv[])
+{
+    if (argc < 2)
+        return;
+    if (!strcmp(argv[1], "sync")) {
+        printf("#verif sync %s\n", argc > 2 ? argv[2] : "");
+        fflush(stdout);
+    } else if (!strcmp(argv[1], "audit")) {
+        iauth_verif_audit();
+    } else if (!strcmp(argv[1], "timeout")) {
+        if (req && req->timeout && evtimer_pending(req->timeout, NULL)) {
+            evtimer_del(req->timeout);
+            iauth_timeout(-1, EV_TIMEOUT, req);
+        }
+    }
+}
+
+static int iauth_verif_chunk(void)
+{
+    static int init;
+    static unsigned int state, max;
+
+    if (!init) {
+        const char *env = getenv("IAUTHD_VERIF_CHUNK");
+        init = 1;
+        if (env)
+            sscanf(env, "%u:%u", &state, &max);
+    }
+    if (!max)
+        return 4096;
+    state = state * 1103515245u + 12345u;
+    return 1 + (state >> 16) % max;
+}
+#endif /* defined(IAUTHD_C_VERIF) */
+
 static void iauth_read(evutil_socket_t fd, short events, void *iauth_in_v)
 {
     struct iauth_request *req;
@@ -815,6 +887,10 @@ static void iauth_read(evutil_socket_t fd, short events, void *iauth_in_v)
         return;
 
     /* Read a chunk of data from the FD into our evbuffer. */
+#if defined(IAUTHD_C_VERIF)
+    res = evbuffer_read(iauth_in_v, fd, iauth_verif_chunk());
+    if (0)
+#endif
     res = evbuffer_read(iauth_in_v, fd, 4096);
     if (res < 0) {
         if (errno != EWOULDBLOCK)
@@ -914,6 +990,11 @@ static void iauth_read(evutil_socket_t fd, short events, void *iauth_in_v)
             /* id is always -1 with current ircu. */
             parse_info_request(argc, argv);
             break;
+#if defined(IAUTHD_C_VERIF)
+        case '#':
+            iauth_verif_command(req, argc, argv);
+            break;
+#endif
         }
 
         /* We are responsible for freeing the line. */
